@@ -583,8 +583,9 @@ def g_md_include(ctx, rng, nows, nsteps, leaky):
     files that have no directive of their own, leave one open, close an `apply year`, include further
     files; year-less dates before, inside and after each include.  Directive scope as the oracle sees
     it is per file: what an included file sets ends with that file, what the includer set goes on.
-    leaky=True additionally lets an included file leave TWO year directives open (finding F106);
-    every year-less date read after that is of kind md-after-leaky-include."""
+    leaky=True additionally lets included files leave TWO year directives open (the shape of the
+    repaired defect F106, /repo cbfca66: the first of them used to stay in force in the includer);
+    the dates read after such a file are judged like all others."""
     groups = []
     for gi, now in enumerate(nows):
         txs, tails, files = [], {}, []
@@ -603,7 +604,7 @@ def g_md_include(ctx, rng, nows, nsteps, leaky):
                 m = rng.randrange(1, 13)
                 d = rng.choice([1, 15, dim(yy, m), 28, rng.randrange(1, 29), 29 if m == 2 else 30])
                 z = rng.random() < 0.6
-                kind = 'md-after-leaky-include' if state['tainted'] else ('md-directive' if cy is not None else 'md-now')
+                kind = ('md-directive' if cy is not None else 'md-now') + ('-after-two-open-include' if state['tainted'] else '')
                 ds = DS(spell_md(m, d, rng.choice('///-.'), z or m >= 10, z or d >= 10),
                         md_intent((cy, 12, 31), m, d, True) if cy is not None else md_intent(now, m, d, False), kind)
                 k = rng.random()
